@@ -86,6 +86,47 @@ type Simple struct {
 
 type Empty struct{}
 
+// WideRecord has a schema of well over a kilobyte (larger than any fixed header buffer).
+type WideRecord struct {
+	Identifier0         int64       `json:"identifier_number_zero"`
+	DescriptionText1    string      `json:"description_text_number_one"`
+	MeasurementValue2   float64     `json:"measurement_value_number_two,omitempty"`
+	BooleanFlag3        bool        `json:"boolean_flag_number_three"`
+	BinaryPayload4      []byte      `json:"binary_payload_number_four"`
+	OptionalCounter5    *int64      `json:"optional_counter_number_five"`
+	CreationTimestamp6  time.Time   `json:"creation_timestamp_number_six"`
+	NullableInteger7    null.Int    `json:"nullable_integer_number_seven"`
+	NullableString8     null.String `json:"nullable_string_number_eight"`
+	ListOfNames9        []string    `json:"list_of_names_number_nine"`
+	SmallInteger10      int16       `json:"small_integer_number_ten"`
+	MediumInteger11     int32       `json:"medium_integer_number_eleven,omitempty"`
+	SinglePrecision12   float32     `json:"single_precision_number_twelve"`
+	NestedRecord13      Inner       `json:"nested_record_number_thirteen"`
+	OptionalNested14    *Inner      `json:"optional_nested_number_fourteen"`
+	ListOfRecords15     []Inner     `json:"list_of_records_number_fifteen"`
+	SecondDescription16 string      `json:"second_description_number_sixteen,omitempty"`
+	SecondIdentifier17  int64       `json:"second_identifier_number_seventeen"`
+	NullableFloat18     null.Float  `json:"nullable_float_number_eighteen"`
+	NullableBool19      null.Bool   `json:"nullable_bool_number_nineteen"`
+	OptionalText20      *string     `json:"optional_text_number_twenty"`
+	ListOfNumbers21     []int64     `json:"list_of_numbers_number_twenty_one"`
+}
+
+// EmbedMid embeds a struct that is not the first field; EmbedPtr embeds by pointer.
+// The embedded struct is ONE field (named by its type); its inner fields are not
+// fields of the outer record even when the file has fields with their names.
+type EmbedMid struct {
+	X int64 `json:"x"`
+	Inner
+	Y string `json:"y"`
+}
+
+type EmbedPtr struct {
+	X int64 `json:"x"`
+	*Inner
+	Y string `json:"y"`
+}
+
 type BigStrings struct {
 	K string `json:"k"`
 	V string `json:"v"`
@@ -219,6 +260,9 @@ type WithIface struct {
 func init() {
 	reg[Simple]("Simple", true)
 	reg[Empty]("Empty", true)
+	reg[WideRecord]("WideRecord", true)
+	reg[EmbedMid]("EmbedMid", true)
+	reg[EmbedPtr]("EmbedPtr", true)
 	reg[BigStrings]("BigStrings", true)
 	reg[Widths]("Widths", true)
 	reg[Nested]("Nested", true)
